@@ -12,6 +12,7 @@ pub mod c11;
 pub mod c12;
 pub mod c13;
 pub mod c14;
+pub mod c15;
 pub mod c16;
 pub mod c17;
 pub mod c18;
@@ -44,6 +45,8 @@ pub fn run(id: &str, replay: Option<&str>) -> i32 {
         ("C12", Some(p)) => c12::replay(p),
         ("C13", None) => c13::run(started),
         ("C13", Some(p)) => c13::replay(p),
+        ("C15", None) => c15::run(started),
+        ("C15", Some(p)) => c15::replay(p),
         ("C16", None) => c16::run(started),
         ("C16", Some(p)) => c16::replay(p),
         ("C17", None) => c17::run(started),
